@@ -9,8 +9,10 @@ use serde_json::{json, Value};
 use text_size::{TextRange, TextSize};
 
 pub const WS_DIR: &str = "/ws";
-/// INCLUDE_DIR is process-global; the harness sets it once to this virtual directory.
-pub const INC_DIR: &str = "/incdir";
+/// INCLUDE_DIR is process-global; the harness sets it once to this directory: a virtual one for the
+/// in-memory file system, a real one (below /dev/shm, created on demand) for the server checks that
+/// put a document there.
+pub const INC_DIR: &str = "/dev/shm/vcheck-incdir";
 
 pub fn init_env() {
     // set before any worker thread exists
